@@ -85,8 +85,13 @@ ASSUME Mode = "wf" =>
   /\ \A a \in Argvs(PairArgs) : Mine(Enc(a)) => \A b \in Argvs(PairArgs) : WfOne(<<a, b>>)
   /\ \A a \in Argvs(TripleArgs) : Mine(Enc(a)) => \A b, c \in Argvs(TripleArgs) : WfOne(<<a, b, c>>)
 
-\* (ii) all byte strings over Alpha up to MaxLen
-ASSUME Mode = "all" => \A n \in 0..MaxLen : \A s \in [1..n -> Alpha] : Mine(s) => Emit("all", s)
+\* (ii) all byte strings over Alpha up to MaxLen.  Strings of length >= 3 are sliced by their first two
+\* symbols (64 prefixes dealt round-robin to the slices); the 73 shorter ones go to slice 0.
+AlphaSeq == <<R_STAR, R_DOLLAR, 49, 50, R_MINUS, 97, R_CR, R_LF>>
+ASSUME Mode = "all" =>
+  /\ Slice = 0 => \A n \in 0..(IF MaxLen < 2 THEN MaxLen ELSE 2) : \A s \in [1..n -> Alpha] : Emit("all", s)
+  /\ \A i, j \in 1..8 : ((i - 1) * 8 + (j - 1)) % NSlices = Slice =>
+        \A n \in 1..(MaxLen - 2) : \A s \in [1..n -> Alpha] : Emit("all", <<AlphaSeq[i], AlphaSeq[j]>> \o s)
 
 \* (iii) single-point mutations
 ASSUME Mode = "mut" => \A base \in MutBases : Mine(base) => \A s \in Mut(base) : Emit("mut", s)
@@ -120,4 +125,5 @@ MCStreams ==
 VecInit == /\ stream = <<>> /\ expect = 0 /\ wire = <<>> /\ buf = <<>> /\ ps = 0 /\ out = <<>> /\ st = "vec"
 VecNext == UNCHANGED vars
 VecSpec == VecInit /\ [][VecNext]_vars
+NoStreams == {}
 =============================================================================
